@@ -33,6 +33,8 @@ pub struct DocOpts {
     /// `$v: T = x` used at a `T!` position (allowed by the spec when the default is non-null)
     pub nullable_var_with_default_at_nonnull: bool,
     pub nested_variables: bool,
+    /// nested variables (list items, input-object fields) that the request does not supply (and that have no default)
+    pub nested_omitted_variables: bool,
     pub aliases: bool,
     /// let the same response key appear more than once in a selection set
     pub repeated_keys: bool,
@@ -54,6 +56,7 @@ impl Default for DocOpts {
             omitted_var_uses_arg_default: true,
             nullable_var_with_default_at_nonnull: true,
             nested_variables: true,
+            nested_omitted_variables: false,
             aliases: true,
             repeated_keys: true,
             typename: true,
@@ -211,7 +214,11 @@ impl<'a> G<'a> {
             (Ty::List(item), Val::List(xs)) => Val::List(
                 xs.into_iter()
                     .map(|x| {
-                        if self.r.chance(1, 5) {
+                        if self.o.nested_omitted_variables && !item.is_nonnull() && self.r.chance(1, 8) {
+                            // an item given by a variable the request does not supply: the item is null
+                            self.feat("nested_omitted_variable_in_list");
+                            self.omitted_var(item)
+                        } else if self.r.chance(1, 5) {
                             self.feat("nested_variable_in_list");
                             self.present_var(item)
                         } else {
@@ -230,6 +237,11 @@ impl<'a> G<'a> {
                         .map(|(k, x)| {
                             let fty = defs.iter().find(|d| d.name == k).map(|d| d.ty.clone());
                             match fty {
+                                Some(fty) if !oneof && self.o.nested_omitted_variables && !fty.is_nonnull() && self.r.chance(1, 8) => {
+                                    // a field given by a variable the request does not supply: the field is absent
+                                    self.feat("nested_omitted_variable_in_object");
+                                    (k, self.omitted_var(&fty))
+                                }
                                 Some(fty) if !oneof && self.r.chance(1, 5) => {
                                     self.feat("nested_variable_in_object");
                                     (k, self.present_var(&fty))
@@ -243,6 +255,13 @@ impl<'a> G<'a> {
             }
             (_, v) => v,
         }
+    }
+
+    /// A variable of the nullable type `ty`, without default, that the request does not supply.
+    fn omitted_var(&mut self, ty: &Ty) -> Val {
+        let name = format!("v{}", self.vars.len());
+        self.vars.push(VarInfo { def: VarDef { name: name.clone(), ty: ty.nullable().clone(), default: None }, value: None });
+        Val::Var(name)
     }
 
     /// A variable of exactly type `ty` that is supplied at run time.
